@@ -33,26 +33,7 @@ func c01(p *Prog, r *Report) {
 	}
 	const R7 = "C01.varint-length-prefixes-exact"
 	r.Rule(R7, "type 5 and batch messages carry QUIC-varint length prefixes: encoder and decoder are exact inverses with the shortest form (the rules of C19, evaluated here as one obligation per rule)", 5)
-	{
-		sub := NewReport("C19", r.Tier)
-		sub.curConfig = r.curConfig
-		c19(p, sub)
-		bad := map[string]string{}
-		n := map[string]int{}
-		for _, o := range sub.Obs {
-			n[o.Rule]++
-			if o.Status != Discharged && bad[o.Rule] == "" {
-				bad[o.Rule] = o.Key + ": " + o.Detail + " at " + o.Pos
-			}
-		}
-		for _, name := range sub.ruleOrder {
-			ri := sub.Rules[name]
-			if n[name] < ri.Expected && bad[name] == "" {
-				bad[name] = fmt.Sprintf("rule matched %d instances < %d", n[name], ri.Expected)
-			}
-			r.Check(bad[name] == "", R7, "quicwire: "+name, "quicwire/wire.go", fmt.Sprintf("%d obligations discharged", n[name]), bad[name])
-		}
-	}
+	c19AsSubRule(p, r, R7)
 	r.Rule(R5, "the request field holds the library output whose length the decoder's fixed width names (compressed element / blinded message)", 6)
 
 	ne1, ok1 := p.constInt("~/tokens/type1", "Ne")
